@@ -6,31 +6,46 @@ HARNESS_PKG = "h_node_tasks"
 HARNESS_ARGS = ["c14"]
 COQ_IMPORTS = "From PV Require Import Model.Tasks Oracle.C14."
 TECHNIQUE = ("Coq proof over a labelled transition system of TaskTracker/Task/Pipeline::process (invariant over all reachable states, "
-             "strictly decreasing measure) + replay of model schedules on the real code through cfg-gated schedule points")
+             "strictly decreasing measure) and over a second one for the result mutex held across steps by contending waiters + replay of "
+             "model schedules on the real Pipeline::process future through cfg-gated schedule points + multi-thread contention runs")
 LEVEL_TEXT = ("Proved in Coq for any number of submitters, any assignment of operation ids (including concurrent submissions of the same "
               "operation) and every schedule: C14_result_is_own (safety), C14_traces_bounded (every schedule has at most 10 steps per "
               "submitter), and for the repaired order of Task::ready (Notified created and enabled before the result check) "
               "C14_deadlock_free, C14_every_maximal_trace_returns, C14_can_always_complete; C14_asis_order_deadlocks keeps the lost wake-up of "
-              "the order before the repair as a regression witness. The model is tied to p2panda/src/processor/tasks.rs on every run: the "
-              "real TaskTracker/Task are driven pick by pick (hand-polled futures that stop at the schedule points of the hook commits) "
+              "the order before the repair as a regression witness. For the result mutex of one task held across steps (a waiter acquires, "
+              "looks, clones, releases) with any number of waiters and the writer: C14_contended_traces_bounded, C14_contended_deadlock_free, "
+              "C14_contended_readers_return (blocking lock().await: every maximal schedule ends with every waiter having returned the stored "
+              "result); C14_try_lock_check_strands_a_waiter refutes a try_lock() check in the model. The model is tied to "
+              "p2panda/src/processor/{pipeline,tasks}.rs on every run: the REAL Pipeline::process future (detached Pipeline handle, the "
+              "harness plays the pipeline thread on the same TaskTracker) is driven pick by pick (it parks at the entry of track, inside send, at "
+              "the entry of ready and at the schedule points inside ready/mark_as_done, in whatever order the function makes these calls) "
               "through all pick sequences of bounded length for 1 submitter and for 2 submitters (same id / different ids) x 1 completer, "
-              "plus random schedules for up to 4 submitters, and the program counter reached after every pick is compared with the model; "
-              "termination and own-result are checked on the implementation's run. A stress run drives the real Pipeline::process "
-              "(own thread, SQLite in memory) from a multi-thread runtime with concurrent duplicate submissions.")
+              "plus random schedules for up to 4 submitters; where it parks first and the program counter reached after every pick are compared "
+              "with the model (so the order track -> send -> ready of the real function is part of the observation); termination and own-result "
+              "are checked on the implementation's run. Whole-run scenarios on the real code: stress (real Pipeline thread, multi-thread runtime, "
+              "duplicates), paused (real Pipeline thread, hand-polled submitters pausing in every window between two steps of process), mt (k "
+              "waiters of one task on k OS threads, slow Clone of the result = contention on the result mutex, task finished before / while they wait).")
 LEVEL_NOTE = ("PARTIAL liveness: relative to the modelled tokio semantics (notify_waiters wakes exactly the Notified futures created/enabled "
-              "before the call; uncontended locks are acquired at once) and to an unbounded FIFO channel into the pipeline (the real one "
+              "before the call; a free lock is acquired at once, a pending lock() is granted at some point after the holder released, queue order "
+              "not modelled) and to an unbounded FIFO channel into the pipeline (the real one "
               "holds 128 events and its send error is ignored); that the processing layers hand every event to mark_as_done is C13's "
-              "subject. Lock hand-off to queued waiters is not explored (the harness never polls a submitter whose track would queue). "
-              "Trusted: Coq kernel + vm_compute; hand-written model; harness/python glue; correspondence is differential testing.")
+              "subject. The two transition systems are separate: the big one takes the result mutex inside one step, the small one (one task, k "
+              "waiters, the writer) holds it across steps; hand-off of the TRACKER lock to queued waiters is not explored (the harness never polls a "
+              "submitter whose track would queue). "
+              "Trusted: Coq kernel + vm_compute; hand-written model; harness/python glue; correspondence is differential testing; the mt/paused/stress "
+              "runs are timing based (a miss is possible, a false alarm is not: they give up only after 5 s (mt) or 20 s (paused, stress) without any progress).")
 ASSUMPTIONS = ["tokio Notify: notify_waiters() wakes exactly the Notified futures created (and enabled) before the call",
-               "tokio Mutex/RwLock: an uncontended acquisition succeeds immediately; guards release on drop",
+               "tokio Mutex/RwLock: mutual exclusion; an uncontended acquisition succeeds immediately; a pending lock() is granted after the holder's guard is dropped; guards release on drop",
                "the channel into the pipeline is FIFO and never full or closed; the pipeline hands every received event to mark_as_done exactly once"]
 TRUSTED = ["modelled not verified: tokio Notify/Mutex/RwLock/mpsc semantics, the ingest/log-prune layers between recv and mark_as_done",
-           "schedule points are cfg-gated awaits added to tasks.rs (hook commits); with the cfg off the code is unchanged"]
+           "schedule points are cfg-gated awaits added to tasks.rs (hook commits) and a detached Pipeline constructor (capacity-1 channel whose only slot the harness holds, so that send parks); with the cfg off the code is unchanged"]
 RULE = ("quick: every pick sequence of length <= 8 for one submitter + completer, every pick sequence of length 6 for two submitters (same id, "
-        "different ids) + completer, 300 random pick sequences (1-4 submitters, length <= 40), each followed by a round-robin drain; 4 stress "
-        "runs of the real Pipeline (up to 64 submissions, duplicates, 4 worker threads); thorough: lengths 10 / 7, 1500 random, 12 stress runs. "
-        "non-trivial = a schedule in which some submitter found no result at its check (token C, it had to wait) and every submitter returned")
+        "different ids) + completer, 300 random pick sequences (1-4 submitters, length <= 40), each followed by a round-robin drain, all on the real "
+        "Pipeline::process future; 4 stress runs of the real Pipeline (up to 64 submissions, duplicates, 4 worker threads); 4 paused runs (1-3 "
+        "submitters, 15-40 ms pause at every schedule point); 16 mt runs (2-4 waiter threads, clone 30-50 ms, start offsets 0-60 ms, task finished "
+        "before the waiters / by a concurrent writer thread); thorough: lengths 10 / 7, 1500 random, 12 stress, 12 paused, 64 mt. "
+        "non-trivial = a schedule in which some submitter found no result at its check (token C, it had to wait) and every submitter returned, or an "
+        "mt run with >= 2 waiters that all returned")
 NONTRIVIAL_FLOOR = 50
 REGISTERED = True
 HARNESS_TIMEOUT = 1800
@@ -38,7 +53,7 @@ HARNESS_TIMEOUT = 1800
 
 def gen(tier, rng):
     quick = tier == "quick"
-    l1, l2, nrand, nstress = (8, 6, 300, 4) if quick else (10, 7, 1500, 12)
+    l1, l2, nrand, nstress, npaused, nmt = (8, 6, 300, 4, 4, 16) if quick else (10, 7, 1500, 12, 12, 64)
     for n in range(0, l1 + 1):
         for ps in itertools.product((0, 1), repeat=n):
             yield {"kind": "sched", "ids": [0], "picks": list(ps)}
@@ -57,11 +72,27 @@ def gen(tier, rng):
     for i in range(nstress):
         subs = rng.choice([8, 16, 32, 64])
         yield {"kind": "stress", "subs": subs, "distinct": rng.randint(1, max(1, subs // 2)), "workers": rng.choice([2, 4])}
+    for i in range(npaused):
+        yield {"kind": "paused", "subs": 1 + i % 3, "pause_ms": rng.choice([15, 25, 40])}
+    # contention on the result mutex: k waiters of one task on k OS threads, slow Clone of the result.
+    # start offsets are smaller than a clone, so that a waiter's check falls while another one holds the mutex
+    for i in range(nmt):
+        k = 2 + i % 3
+        clone_ms = rng.choice([30, 40, 50])
+        mode = i % 2
+        offsets = [0] + [rng.choice([3, 6, 10, 15, 20]) * j for j in range(1, k)]
+        rng.shuffle(offsets)
+        delay = rng.choice([0, 5, 20, 45]) if mode == 1 else 0
+        yield {"kind": "mt", "mode": mode, "clone_ms": clone_ms, "writer_delay_ms": delay, "offsets_ms": offsets}
 
 
 def harness_line(case):
     if case["kind"] == "stress":
         return "stress %d %d %d" % (case["subs"], case["distinct"], case["workers"])
+    if case["kind"] == "paused":
+        return "paused %d %d" % (case["subs"], case["pause_ms"])
+    if case["kind"] == "mt":
+        return "mt %d %d %d | %s" % (case["mode"], case["clone_ms"], case["writer_delay_ms"], " ".join(map(str, case["offsets_ms"])))
     return "sched %s | %s" % (" ".join(map(str, case["ids"])), " ".join(map(str, case["picks"])))
 
 
@@ -69,9 +100,18 @@ def _nl(xs):
     return "[" + ";".join(str(x) for x in xs) + "]"
 
 
+_TAG = {"paused": "PAUSED", "mt": "MT"}
+
+
+def _expected(case):
+    return len(case["offsets_ms"]) if case["kind"] == "mt" else case["subs"]
+
+
 def coq_model(case):
     if case["kind"] == "stress":
         return "stress_line %d%%N" % case["subs"]
+    if case["kind"] in _TAG:
+        return 'count_line "%s" %d%%N' % (_TAG[case["kind"]], _expected(case))
     return "model_line %s %s" % (_nl(case["ids"]), _nl(case["picks"]))
 
 
@@ -80,8 +120,9 @@ def _results(case, impl):
     n = len(case["ids"])
     parts = [p.strip() for p in impl.split("/")]
     res = [None] * n
-    if len(parts) != 3:
+    if len(parts) != 4:
         return res
+    parts = parts[1:]   # parts[0]: where the submitters park before the first pick
     toks = parts[0].split()
     for a, t in zip(case["picks"], toks):
         if a < n and t.startswith("D"):
@@ -98,18 +139,34 @@ def coq_oracle(case, impl):
     if case["kind"] == "stress":
         f = dict(x.split("=") for x in impl.split()[1:])
         return "check_stress %d%%N %d%%N %d%%N" % (case["subs"], int(f["returned"]), int(f["own"]))
+    if case["kind"] in _TAG:
+        f = dict(x.split("=") for x in impl.split()[1:])
+        return "check_count %d%%N %d%%N %d%%N" % (_expected(case), int(f["returned"]), int(f["own"]))
     res = _results(case, impl)   # a submitter that never returned stays None and fails the oracle
     o = "[" + ";".join("None" if r is None else "Some %d" % r for r in res) + "]"
     return "check %s %s" % (_nl(case["ids"]), o)
 
 
 def nontrivial(case, impl):
+    if case["kind"] == "mt":   # at least two waiters, all of them back
+        k = len(case["offsets_ms"])
+        return k >= 2 and impl == "MT returned=%d own=%d" % (k, k)
     if case["kind"] != "sched":
         return False
     return " C" in (" " + impl) and impl.rstrip().endswith("OK") and len(case["ids"]) >= 1
 
 
 def shrink(case):
+    if case["kind"] == "mt":   # every failing candidate costs the 5 s give-up time: only a few
+        offs = case["offsets_ms"]
+        if len(offs) > 2:
+            for d in range(min(3, len(offs))):
+                yield dict(case, offsets_ms=offs[:d] + offs[d + 1:])
+        return
+    if case["kind"] == "paused":
+        if case["subs"] > 1:
+            yield dict(case, subs=case["subs"] - 1)
+        return
     if case["kind"] != "sched":
         if case["subs"] > 1:
             yield {"kind": "stress", "subs": case["subs"] // 2, "distinct": max(1, case["distinct"] // 2), "workers": case["workers"]}
@@ -133,7 +190,13 @@ def distribution(cases, impl):
     nsub = {}
     for c in sched:
         nsub[len(c["ids"])] = nsub.get(len(c["ids"]), 0) + 1
-    return {"schedules": len(sched), "stress_runs": len(cases) - len(sched),
+    kinds = {}
+    for c in cases:
+        kinds[c["kind"]] = kinds.get(c["kind"], 0) + 1
+    mtc = [c for c in cases if c["kind"] == "mt"]
+    return {"schedules": len(sched), "stress_runs": kinds.get("stress", 0), "paused_runs": kinds.get("paused", 0),
+            "mt_runs": len(mtc), "mt_waiters": sum(len(c["offsets_ms"]) for c in mtc),
+            "mt_completed_before_waiters": sum(1 for c in mtc if c["mode"] == 0),
             "schedules_with_a_waiting_submitter": waited, "schedules_with_a_wake_up": woken,
             "deadlocks_on_impl": dead, "submitters": {str(k): v for k, v in sorted(nsub.items())},
             "same_id_pairs": sum(1 for c in sched if len(c["ids"]) != len(set(c["ids"]))),
